@@ -1148,6 +1148,7 @@ _BASIC_CONVERTERS: t.Dict[type, Converter[t.Any]] = {
     complex: ScalarConverter(complex, (int, float, complex), 'a complex float', 'complex floats', complex),
     float: ScalarConverter(float, (int, float), 'a float', 'floats', float),
     int: ScalarConverter(int, int, 'an int', 'ints', int),
+    bool: ScalarConverter(bool, bool, 'a bool', 'bools', bool),
     str: ScalarConverter(str, str, 'a string', 'strings', str),
     bytes: ScalarConverter(bytes, (bytes, bytearray), 'a bytestring', 'bytestrings'),
     bytearray: ScalarConverter(bytearray, (bytes, bytearray), 'a bytearray', 'bytearrays'),
